@@ -178,3 +178,167 @@ fn c03_divrem_bounded() {
         expect_exact(res, m);
     }
 }
+
+// ---------------------------------------------------------------------------
+// Unary operators on values, and lazy evaluation of && || ?: on ASTs built directly.
+// ---------------------------------------------------------------------------
+use super::{apply_postfix, apply_prefix, eval};
+use crate::ast::{Ast, PostfixOperator, PrefixOperator};
+use crate::token::Term;
+
+/// Recording environment: one variable slot `x` (unset), counts assignments per name.
+struct Rec {
+    assigned_x: u8,
+    assigned_y: u8,
+    last_len: usize,
+}
+
+impl crate::env::Env for Rec {
+    type GetVariableError = ();
+    type AssignVariableError = ();
+    fn get_variable(&self, _name: &str) -> Result<Option<&str>, ()> {
+        Ok(None)
+    }
+    fn assign_variable(&mut self, name: &str, value: String, _location: std::ops::Range<usize>) -> Result<(), ()> {
+        if name.as_bytes()[0] == b'x' {
+            self.assigned_x += 1;
+        } else {
+            self.assigned_y += 1;
+        }
+        self.last_len = value.len();
+        std::mem::forget(value);
+        Ok(())
+    }
+}
+
+/// Bound: operand any i64; operators + - ! ~ on a value, and ++ -- (prefix and postfix) on a
+/// value (which must be refused).
+#[kani::proof]
+#[kani::unwind(4)]
+fn c03_unary_on_values() {
+    let v: i64 = kani::any();
+    let k: u8 = kani::any();
+    kani::assume(k < 8);
+    let mut env = Rec { assigned_x: 0, assigned_y: 0, last_len: 0 };
+    let term = Term::Value(Value::Integer(v));
+    let loc = 3..5;
+    let res = match k {
+        0 => apply_prefix(term, PrefixOperator::NumericCoercion, &loc, &mut env),
+        1 => apply_prefix(term, PrefixOperator::NumericNegation, &loc, &mut env),
+        2 => apply_prefix(term, PrefixOperator::LogicalNegation, &loc, &mut env),
+        3 => apply_prefix(term, PrefixOperator::BitwiseNegation, &loc, &mut env),
+        4 => apply_prefix(term, PrefixOperator::Increment, &loc, &mut env),
+        5 => apply_prefix(term, PrefixOperator::Decrement, &loc, &mut env),
+        6 => apply_postfix(term, PostfixOperator::Increment, &loc, &mut env),
+        _ => apply_postfix(term, PostfixOperator::Decrement, &loc, &mut env),
+    };
+    assert!(env.assigned_x == 0 && env.assigned_y == 0, "C03 unary operator on a value assigns nothing");
+    match k {
+        0 => assert!(matches!(res, Ok(Value::Integer(r)) if r == v), "C03 unary +"),
+        1 => {
+            if v == i64::MIN {
+                assert!(matches!(res, Err(ref e) if matches!(e.cause, EvalError::Overflow)), "C03 -MIN overflows");
+            } else {
+                assert!(matches!(res, Ok(Value::Integer(r)) if r as i128 == -(v as i128)), "C03 unary -");
+            }
+        }
+        2 => assert!(matches!(res, Ok(Value::Integer(r)) if r == (if v == 0 { 1 } else { 0 })), "C03 !"),
+        3 => assert!(matches!(res, Ok(Value::Integer(r)) if r as i128 == -(v as i128) - 1), "C03 ~"),
+        _ => assert!(matches!(res, Err(ref e) if matches!(e.cause, EvalError::AssignmentToValue)), "C03 ++/-- need a variable"),
+    }
+    kani::cover!(k == 1 && v == i64::MIN, "negation overflow reachable");
+    kani::cover!(k >= 4, "increment of a value reachable");
+}
+
+fn val(v: i64) -> Ast<'static> {
+    Ast::Term(Term::Value(Value::Integer(v)))
+}
+
+fn var(name: &'static str) -> Ast<'static> {
+    Ast::Term(Term::Variable { name, location: 0..1 })
+}
+
+fn bin(op: BinaryOperator, rhs_len: usize) -> Ast<'static> {
+    Ast::Binary { operator: op, rhs_len, location: 1..2 }
+}
+
+/// Bound: the templates  l || 1/0,  l && 1/0,  c ? 1/0 : 5,  c ? 5 : 1/0,  (c ? 0 : 1) || 1/0
+/// with c / l any i64.
+/// Decided: the unevaluated operand raises nothing (it is not evaluated at all, so it has no
+/// side effect either); the evaluated one does; && || yield 0/1.
+/// (Templates with an assignment in the skipped operand were dropped: `assign` formats the
+/// value with `to_string`, and the integer formatting machinery did not finish in 20 min.)
+fn lazy(t: u8) {
+    let c: i64 = kani::any();
+    let mut env = Rec { assigned_x: 0, assigned_y: 0, last_len: 0 };
+    // stack arrays, one template per harness (a heap-allocated Vec of these enums makes CBMC
+    // encode them bytewise; several templates in one harness multiply the recursion unwinding)
+    let r = match t {
+        0 => eval(&[val(c), val(1), val(0), bin(Divide, 1), bin(LogicalOr, 3)], &mut env),
+        1 => eval(&[val(c), val(1), val(0), bin(Divide, 1), bin(LogicalAnd, 3)], &mut env),
+        2 => eval(&[val(c), val(1), val(0), bin(Divide, 1), val(5), Ast::Conditional { then_len: 3, else_len: 1 }], &mut env),
+        3 => eval(&[val(c), val(5), val(1), val(0), bin(Divide, 1), Ast::Conditional { then_len: 1, else_len: 3 }], &mut env),
+        _ => eval(&[val(c), val(0), val(1), Ast::Conditional { then_len: 1, else_len: 1 }, val(1), val(0), bin(Divide, 1), bin(LogicalOr, 3)], &mut env),
+    };
+    let r = match r {
+        Ok(term) => super::into_value(term, &env),
+        Err(e) => Err(e),
+    };
+    let div0 = matches!(r, Err(ref e) if matches!(e.cause, EvalError::DivisionByZero));
+    match t {
+        0 => {
+            if c != 0 {
+                assert!(matches!(r, Ok(Value::Integer(1))), "C03 || skips its right operand when the left is non-zero");
+            } else {
+                assert!(div0, "C03 || evaluates its right operand when the left is zero");
+            }
+        }
+        1 => {
+            if c == 0 {
+                assert!(matches!(r, Ok(Value::Integer(0))), "C03 && skips its right operand when the left is zero");
+            } else {
+                assert!(div0, "C03 && evaluates its right operand when the left is non-zero");
+            }
+        }
+        2 => {
+            if c != 0 {
+                assert!(div0, "C03 ?: evaluates the chosen branch");
+            } else {
+                assert!(matches!(r, Ok(Value::Integer(5))), "C03 ?: does not evaluate the other branch");
+            }
+        }
+        3 => {
+            if c != 0 {
+                assert!(matches!(r, Ok(Value::Integer(5))), "C03 ?: does not evaluate the other branch");
+            } else {
+                assert!(div0, "C03 ?: evaluates the chosen branch");
+            }
+        }
+        _ => {
+            // (c ? 0 : 1) || 1/0
+            if c == 0 {
+                assert!(matches!(r, Ok(Value::Integer(1))), "C03 nested: left operand 1 short-circuits");
+            } else {
+                assert!(div0, "C03 nested: left operand 0 evaluates the right");
+            }
+        }
+    }
+    assert!(env.assigned_x == 0 && env.assigned_y == 0, "C03 no assignment happens");
+    kani::cover!(div0, "erroneous operand evaluated");
+    kani::cover!(r.is_ok(), "erroneous operand skipped");
+}
+
+macro_rules! lazy_harness {
+    ($name:ident, $t:expr) => {
+        #[kani::proof]
+        #[kani::unwind(6)]
+        fn $name() {
+            lazy($t);
+        }
+    };
+}
+lazy_harness!(c03_lazy_or, 0);
+lazy_harness!(c03_lazy_and, 1);
+// The ?: templates (2-4) are kept for reference but not registered as harnesses: with the
+// Conditional node CBMC needed > 8 GB and gave no answer in 11 min (the nested one ran out of
+// memory at 16 GB), so the laziness of ?: is outside the claim.
